@@ -538,3 +538,48 @@ fn c12_enumerate_start() {
     kani::assume(d < 32);
     assert!(it.configuration_access.present[usize::from(d)] == b.present[usize::from(d)] && it.configuration_access.bus == b.bus, "C12: enumeration uses a different configuration space");
 }
+
+// ---------------------------------------------------------------------------
+// Concrete demonstrations of the three suspected defects (docs/builders/bus.report.md).  These assert the
+// *observed* faulty outcome for one concrete input each: they PASS on a tree that has the defect and fail
+// once it is repaired.  Not part of any property configuration.
+// ---------------------------------------------------------------------------
+fn demo_fn(cmdsts: u32, bar_slot: usize, bar: u32, mask: u32) -> RefFn {
+    let mut bars = [0u32; 6];
+    let mut masks = [0u32; 6];
+    bars[bar_slot] = bar;
+    masks[bar_slot] = mask;
+    RefFn { cmdsts, cmd_mask: 0xffff, bars, masks, other: 0, log: [Wr { off: 0, data: 0, decode_on: false }; LOGN], nlog: 0, log_wrap: false, foreign_access: false }
+}
+
+/// S1: BAR5 = 0x0000_0004 (64-bit memory type in the last slot), command = 0x0003.
+#[kani::proof]
+#[kani::unwind(12)]
+fn c12_demo_s1_slot5_64bit() {
+    let mut root = PciRoot::new(demo_fn(0x0000_0003, 5, 0x0000_0004, 0xffff_fff0));
+    let r = root.bar_info(DF, 5);
+    assert!(r == Err(PciError::InvalidBarType));
+    assert!(root.configuration_access.bars[5] == 0xffff_fff4, "BAR5 is left holding the sizing pattern");
+    assert!(root.configuration_access.cmdsts == 0x0000_0000, "I/O and memory decoding are left disabled");
+}
+
+/// S2: command = 0x0083 (I/O + memory enabled, bit 7 set and writable), BAR0 = 4 KiB 32-bit memory BAR.
+#[kani::proof]
+#[kani::unwind(12)]
+fn c12_demo_s2_reserved_command_bit() {
+    let mut root = PciRoot::new(demo_fn(0x0000_0083, 0, 0x0000_0000, 0xffff_f000));
+    let r = root.bar_info(DF, 0);
+    assert!(r == Ok(Some(BarInfo::Memory { address_type: MemoryBarType::Width32, prefetchable: false, address: 0, size: 0x1000 })));
+    assert!(root.configuration_access.cmdsts == 0x0000_0003, "command bit 7 was cleared by the probe");
+}
+
+/// S3: BAR0 = 0x0000_0001 with writable bits 0x0000_ff00: a 256-byte I/O BAR whose upper 16 address bits are
+/// hard-wired to zero (PCI 3.0 section 6.2.5.1).
+#[kani::proof]
+#[kani::unwind(12)]
+fn c12_demo_s3_io16() {
+    let mut root = PciRoot::new(demo_fn(0x0000_0000, 0, 0x0000_0001, 0x0000_ff00));
+    let r = root.bar_info(DF, 0);
+    assert!(r == Ok(Some(BarInfo::IO { address: 0, size: 0xffff_0100 })), "size reported as 0xffff0100 instead of 0x100");
+    assert!(root.configuration_access.bars[0] == 0x0000_0001 && root.configuration_access.cmdsts == 0);
+}
